@@ -135,4 +135,9 @@ def tie(tier, seed, replay):
                       "std::sync::Mutex makes lock; add; unlock one atomic step (parallel `new`); rustc, hashbrown meet their documented semantics"],
         assumptions=["column values are small non-negative integers (u32 in the DS harness, i32 in programs); the element type only needs Clone + Hash + Eq",
                      "PROG expected values come from the specification oracle on the EXPLICIT program (Engine/Strat.v strat_fix, proved to compute the least / stratified model); that the real engine agrees with the oracle on the explicit program is asserted on every case (it is C01's subject)"],
-        extra=dict(ds_histories=len(ds_cases), prog_programs=len(results), known_class_mismatch_counts=known_counts))
+        extra=dict(ds_histories=len(ds_cases), prog_programs=len(results), known_class_mismatch_counts=known_counts,
+                   partial=[dict(full="engine_with_providers: run() of a program with a tagged relation leaves the least model of the program plus the explicit reflexivity / symmetry / transitivity rules (statement and what it needs: comment at the top of coq/Props/C10.v)",
+                                 proved="c10_eqrel_binary_provider_ok_partial, c10_eqrel_par_provider_ok_partial (provider laws P1-P5 for every history, every view against the closure), c10_engine_facing_* (what the engine consumes), c10_ternary_lifting",
+                                 gap="the engine model (Engine/Eval.v) has no provider-backed relations; the composition is carried by the PROG half of this tie"),
+                            dict(full="eqrel_ternary_provider_ok", proved="c10_ternary_refuted (+ witnesses): the ternary structure as written violates P2 / P3 / P4; c10_eqrel_ternary_lifted_ok is the statement for a merge that keeps every key's versions",
+                                 gap="genuine defects of /repo, listed in known_findings.json")]))
